@@ -4,6 +4,7 @@ import Drv.C13
 import Drv.RL
 import Drv.C345
 import Drv.C789
+import Drv.HT
 open Lean Drv
 
 def dispatch (op : String) (j : Json) : Json :=
@@ -19,6 +20,7 @@ def dispatch (op : String) (j : Json) : Json :=
   | "C07.scan" => C07.scan j
   | "C08.struct" => C08.struct j
   | "C09.cols" => C09.cols j
+  | "HT.run" => HTd.run j
   | "RL.encode" => RL.encode j
   | "RL.index" => RL.index j
   | "RL.binop" => RL.binop j
